@@ -23,7 +23,7 @@ TraceCfg(i) == LET c == Traces[i].cfg IN
      xid |-> [x \in Callers |-> IF x <= Len(c.xid) THEN c.xid[x] ELSE 0],
      urgent |-> c.urgent, timed |-> c.timed, cancelChecksIdentity |-> TRUE, timerPerIteration |-> FALSE,
      maxCalls |-> 1000, wfault |-> TRUE,            \* the harness decides how often a caller calls and when a write fails
-     timeoutCarriesOver |-> FALSE, writeErrKeepsEntry |-> FALSE]
+     timeoutCarriesOver |-> FALSE, writeErrKeepsEntry |-> FALSE, fireRegisters |-> FALSE]
 
 TInit == /\ k \in 1..Len(Traces)
          /\ l = 1 /\ bad = FALSE
@@ -42,6 +42,7 @@ Consume ==
     /\ CASE E.a = "Tick" -> Tick /\ now' = E.t
          [] E.a = "Start" -> AtTime /\ Start(E.c)
          [] E.a = "Again" -> AtTime /\ Again(E.c)
+         [] E.a = "Fire" -> AtTime /\ (IF E.ok THEN Fire(E.c) ELSE FireFail(E.c)) /\ E.destok    \* to the lease's server
          [] E.a = "SendLock" -> /\ AtTime /\ SendLock(E.c)
                                 /\ IF E.outcome = "refused" THEN cs'[E.c].res = "inuse"
                                    ELSE cs'[E.c].pc = "txpre" /\ cs'[E.c].ent = E.ent
